@@ -2,13 +2,21 @@
    (Solver.v, transliteration of ddo/src/implementation/solver/sequential.rs).
 
    IF every diagram compilation satisfies the diagram-level contracts K0..K5 (to be proved about
-   Mdd.compile, independently of the solver), THEN `maximize` terminates (explicit fuel bound), does not
-   crash, reports is_exact = true, and its value is the true optimum (None exactly when infeasible):
-   property C01; with a feasible warm-start primal the result is still the optimum: property C14.
+   Mdd.compile, independently of the solver), THEN `maximize` terminates (explicit fuel bound
+   fuel0 = S ((S M) ^ nb_vars)), does not crash, reports is_exact = true, and its value is the true
+   optimum (None exactly when infeasible): property C01 (seq_solver_correct); with a feasible warm-start
+   primal the result is still the optimum: property C14 (seq_solver_correct_primal).
+   Both are instances of maximize_correct; seq_solver_partial_correct is the fuel-independent variant.
 
-   Configuration covered: no cache, SimpleFringe (abstract priority queue [pq_pop]).
-   (The hypotheses "no dominance rule" / "no cutoff" only matter for the diagram contracts; they are
-   stated for documentation, the solver-level argument never uses them.) *)
+   Configuration covered (config_ok): no cache, no dominance rule, no cutoff, SimpleFringe (abstract
+   priority queue [pq_pop]; only "pop returns an element, the rest is the complement" is used, never the
+   maximality of the popped element).  Only the cache / fringe components of config_ok are used by the
+   solver-level argument; the other two matter for whoever discharges K0..K5.
+
+   Section hypotheses that turned out NOT to be needed (best_le_opt, K3_le) are kept for documentation;
+   Coq drops them from the closed statements.  One hypothesis had to be ADDED to the suggested list:
+   good / best must not depend on the sp_ub field (good_set_ub, best_set_ub), because enqueue_cutset
+   re-labels every cut-set node with ub := min(node_ub, ub) before pushing it. *)
 Require Import DDO.Base DDO.Fringe DDO.DP DDO.Cache DDO.Dom DDO.Mdd DDO.Solver.
 From Coq Require Import Permutation Arith.
 Open Scope Z_scope.
@@ -59,10 +67,11 @@ Section SolverProofs.
   Let N := nb_vars pb.
 
   (* ---------------- configuration *)
-  Hypothesis no_cache : sc_use_cache cfg = false.
-  Hypothesis no_domrule : sc_domrule cfg = None.
-  Hypothesis no_cutoff : sc_cutoff cfg = 0%nat.
-  Hypothesis simple_fringe : sc_nodup cfg = false.
+  Definition config_ok : Prop :=
+    sc_use_cache cfg = false /\ sc_domrule cfg = None /\ sc_cutoff cfg = 0%nat /\ sc_nodup cfg = false.
+  Hypothesis cfg_ok : config_ok.
+  Lemma no_cache : sc_use_cache cfg = false. Proof. apply cfg_ok. Qed.
+  Lemma simple_fringe : sc_nodup cfg = false. Proof. apply cfg_ok. Qed.
 
   (* ---------------- abstract semantics *)
   Variable good : @subproblem St -> Prop.
@@ -295,7 +304,7 @@ Section SolverProofs.
     destruct (opt_default IMIN (dd_best_exact_value inp m) >? s_lb s) eqn:E.
     - cbn [s_simple s_open s_lb s_sol s_abort s_crash upd_s]. repeat (split; [reflexivity|]).
       right. rewrite Z.gtb_ltb in E. apply Z.ltb_lt in E.
-      destruct (dd_best_exact_value inp m) as [v|]; cbn [opt_default] in *; [|lia].
+      destruct (dd_best_exact_value inp m) as [v|]; cbn [opt_default] in E |- *; [|lia].
       exists v. repeat split; auto. lia.
     - repeat (split; [reflexivity|]). left. repeat (split; [reflexivity|]).
       intros e He. rewrite He in E. cbn [opt_default] in E.
@@ -324,14 +333,14 @@ Section SolverProofs.
     { rewrite U4, U3, U2, U1, R6, R5, R2, R1, Hcr, Hmc, Hab. auto. }
     destruct Hcore_rest as (C1 & C2 & C4 & C5).
     destruct U5 as [(L1 & L2 & L3) | (v & Hv & Hgt & L1 & L2)].
-    - split; [|split; [rewrite U1, R1; reflexivity|split; [rewrite L1, R3; lia|exact L3]]].
+    - split; [|split; [rewrite U1, R1; reflexivity|split; [rewrite L1, R3; lia|rewrite L1; exact L3]]].
       unfold Core. rewrite L1, L2, R3, R4. auto.
     - subst inp. destruct (K1 _ _ _ _ _ _ _ _ Hct Hg Hd Hc v Hv) as (sol & Hsol & Hfeas).
       split; [|split; [rewrite U1, R1; reflexivity|split; [rewrite L1; rewrite R3 in Hgt; lia|]]].
       + unfold Core. split; [exact C1|]. split; [exact C2|]. split; [|split; [exact C4|exact C5]].
         rewrite L1, L2. split; [rewrite R3 in Hgt; destruct Hinc; lia|].
         right. exists sol. split; [exact Hsol|exact Hfeas].
-      + intros e He. rewrite Hv in He. inversion He; subst. rewrite L1. lia.
+      + intros e He. rewrite Hv in He. assert (e = v) by congruence. rewrite L1. lia.
   Qed.
 
   (* ------------------------------------------------------------------ enqueue_cutset *)
@@ -414,4 +423,293 @@ Section SolverProofs.
         * lia.
   Qed.
 
+  (* ------------------------------------------------------------------ process_one_node *)
+  Lemma kids_weight n cs : (length cs <= M)%nat ->
+    (forall c, In c cs -> (sp_depth n < sp_depth c <= N)%nat) -> (sumf wt cs < wt n)%nat.
+  Proof.
+    intros Hlen Hd. destruct cs as [|c0 cs'].
+    - simpl. pose proof (wt_pos n). lia.
+    - assert (Hn : (sp_depth n < N)%nat).
+      { pose proof (Hd c0 (or_introl eq_refl)). lia. }
+      revert Hlen Hd. generalize (c0 :: cs'). intros cs Hlen Hd.
+      set (P := ((S M) ^ (N - S (sp_depth n)))%nat).
+      assert (HP : (1 <= P)%nat). { unfold P. pose proof (Nat.pow_nonzero (S M) (N - S (sp_depth n))). lia. }
+      assert (Hw : wt n = (S M * P)%nat).
+      { unfold wt, P. replace (N - sp_depth n)%nat with (S (N - S (sp_depth n))) by lia.
+        rewrite Nat.pow_succ_r'. reflexivity. }
+      assert (Hs : (sumf wt cs <= length cs * P)%nat).
+      { apply sumf_le_const. intros c Hc. apply Hd in Hc. unfold wt, P.
+        apply Nat.pow_le_mono_r; lia. }
+      rewrite Hw. assert (length cs * P <= M * P)%nat by (apply Nat.mul_le_mono_r; exact Hlen). lia.
+  Qed.
+
+  Lemma compl_close s n sA :
+    Compl s [n] -> (forall x, In x (s_simple s) -> In x (s_simple sA)) -> s_lb s <= s_lb sA ->
+    (forall o, OPT = Some o -> best n = Some o -> o <= sp_ub n ->
+       o <= s_lb sA \/ exists c, In c (s_simple sA) /\ best c = Some o /\ o <= sp_ub c) ->
+    Compl sA [].
+  Proof.
+    intros HC Hsub Hlb Hn o Ho. destruct (HC o Ho) as [Hle|(w & [Hw|Hw] & Hb & Hu)].
+    - left. lia.
+    - destruct Hw as [Hw|[]]. subst w. destruct (Hn o Ho Hb Hu) as [H|(c & Hc & Hbc & Huc)]; [left; exact H|].
+      right. exists c. split; [right; exact Hc|auto].
+    - right. exists w. split; [right; apply Hsub; exact Hw|auto].
+  Qed.
+
+  Lemma process_spec s n s2 err :
+    Core s -> Compl s [n] -> good n -> (sp_depth n <= N)%nat ->
+    process_one_node st_eqb cfg s n = (s2, err) ->
+    err = false /\ Core s2 /\ Compl s2 [] /\ (Phi (s_simple s2) < Phi (s_simple s) + wt n)%nat.
+  Proof.
+    intros HCore HCompl Hg Hd. unfold process_one_node.
+    destruct (sp_ub n <=? s_lb s) eqn:Eub.
+    { intros H; inversion H; subst s2 err. split; [reflexivity|]. split; [exact HCore|]. split.
+      - apply (compl_close s n s HCompl); [auto|lia|]. intros o _ _ Hu. left. apply Z.leb_le in Eub. lia.
+      - pose proof (wt_pos n). lia. }
+    rewrite no_cache.
+    destruct (run_compile st_eqb cfg s Restricted n) as [[[sa0 inpa] ma] oa] eqn:Ea.
+    destruct (phase _ _ _ _ _ _ _ HCore (or_introl eq_refl) Hg Hd Ea) as (-> & Hinpa & Hca & HCa & Hsa & Hlba & Heva).
+    cbv beta iota zeta.
+    set (sa := maybe_update_best sa0 inpa ma) in HCa, Hsa, Hlba, Heva |- *.
+    destruct (dd_is_exact ma) eqn:Eexa.
+    { intros H; inversion H; subst s2 err. split; [reflexivity|]. split; [exact HCa|]. split.
+      - apply (compl_close s n sa HCompl); [rewrite Hsa; auto|exact Hlba|]. intros o _ Hb _. left.
+        destruct (Z_le_gt_dec o (s_lb s)) as [Hle|Hgt]; [lia|].
+        apply Heva. rewrite Hinpa. eapply K2; eauto. left; reflexivity.
+      - rewrite Hsa. pose proof (wt_pos n). lia. }
+    destruct (run_compile st_eqb cfg sa Relaxed n) as [[[sb0 inpb] mb] ob] eqn:Eb.
+    destruct (phase _ _ _ _ _ _ _ HCa (or_intror eq_refl) Hg Hd Eb) as (-> & Hinpb & Hcb & HCb & Hsb & Hlbb & Hevb).
+    cbv beta iota zeta.
+    set (sb := maybe_update_best sb0 inpb mb) in HCb, Hsb, Hlbb, Hevb |- *.
+    destruct (dd_is_exact mb) eqn:Eexb.
+    { intros H; inversion H; subst s2 err. split; [reflexivity|]. split; [exact HCb|]. split.
+      - apply (compl_close s n sb HCompl); [rewrite Hsb, Hsa; auto|lia|]. intros o _ Hb _. left.
+        destruct (Z_le_gt_dec o (s_lb sa)) as [Hle|Hgt]; [lia|].
+        apply Hevb. rewrite Hinpb. eapply K2; eauto. right; reflexivity.
+      - rewrite Hsb, Hsa. pose proof (wt_pos n). lia. }
+    intros H; inversion H; subst s2 err. clear H. split; [reflexivity|].
+    rewrite enqueue_cutset_fold. subst inpb.
+    set (cs := drain_cutset (mk_input cfg Relaxed n (s_lb sa)) mb).
+    assert (Hdep : forall c, In c cs -> (sp_depth n < sp_depth c <= N)%nat).
+    { intros c Hc. eapply K3_depth; eauto. }
+    destruct HCb as (B1 & B2 & B3 & B4 & B5).
+    destruct (enq_fold_spec (s_lb sb) (sp_ub n) cs sb) as (F1 & F2 & F3 & F4 & F5 & F6 & F7);
+      [intros c Hc; apply Hdep in Hc; lia|exact B5|].
+    split; [|split].
+    - unfold Core. rewrite F1, F2, F3, F4. split; [exact B1|]. split; [exact B2|]. split; [exact B3|].
+      split; [|exact F5]. intros x Hx. apply F6 in Hx. destruct Hx as [Hx|(c & Hc & _ & ->)].
+      + apply B4; exact Hx.
+      + split; [apply good_set_ub; eapply K3_good; eauto|]. cbn [set_ub sp_depth]. apply Hdep in Hc. lia.
+    - apply (compl_close s n _ HCompl).
+      + intros x Hx. apply F6. left. rewrite Hsb, Hsa. exact Hx.
+      + rewrite F1. lia.
+      + intros o Ho Hb Hu. rewrite F1.
+        destruct (Z_le_gt_dec o (s_lb sb)) as [Hle|Hgt]; [left; exact Hle|]. right.
+        assert (Hgta : o > s_lb sa) by lia.
+        destruct (K4 _ _ _ _ _ _ _ Hg Hd Hcb Eexb o Hb Hgta) as (c & Hc & Hbc).
+        { intros e He. apply Hevb in He. lia. }
+        assert (Hubc : o <= sp_ub c) by (eapply K3_ub; eauto).
+        exists (set_ub c (Z.min (sp_ub n) (sp_ub c))). split; [|split].
+        * apply F6. right. exists c. split; [exact Hc|]. split; [lia|reflexivity].
+        * rewrite best_set_ub. exact Hbc.
+        * cbn [set_ub sp_ub]. lia.
+    - eapply Nat.le_lt_trans; [exact F7|]. rewrite Hsb, Hsa.
+      apply Nat.add_lt_mono_l. apply kids_weight; [|exact Hdep].
+      eapply K5; eauto.
+  Qed.
+
+  (* ------------------------------------------------------------------ the loop *)
+  Definition Final (s : @sstate St) : Prop :=
+    s_crash s = false /\ s_abort s = false /\ s_ub s = s_lb s /\ Incumbent (s_lb s) (s_sol s) /\
+    (forall o, OPT = Some o -> o <= s_lb s).
+
+  Lemma main_loop_spec : forall fuel s, Inv s -> (Phi (s_simple s) < fuel)%nat ->
+    exists s', main_loop st_eqb cfg fuel s = (s', Finished) /\ Final s'.
+  Proof.
+    induction fuel as [|fuel IH]; intros s [HCore HCompl] Hfuel; [lia|].
+    cbn [main_loop]. assert (Hcr : s_crash s = false) by apply HCore. rewrite Hcr.
+    destruct (get_workload_spec s HCore) as [(Hemp & s1 & Hgw & W1 & W2 & W3 & W4 & W5 & W6)
+                                            |(x & rest & s1 & Hgw & Hperm & W1 & HC1 & W2)]; rewrite Hgw.
+    - exists s1. split; [reflexivity|]. unfold Final. rewrite W6, W5, W4. split; [exact W2|]. split; [exact W3|].
+      split; [reflexivity|]. split; [apply HCore|]. intros o Ho.
+      destruct (HCompl o Ho) as [H|(w & [[]|Hw] & _)]; [exact H|]. rewrite Hemp in Hw. destruct Hw.
+    - destruct (process_one_node st_eqb cfg s1 x) as [s2 err] eqn:Ep.
+      assert (Hx : In x (s_simple s)).
+      { eapply Permutation_in; [apply Permutation_sym; exact Hperm|]. left; reflexivity. }
+      destruct HCore as (_ & _ & _ & Hfr & _). destruct (Hfr x Hx) as [Hgx Hdx].
+      assert (HCompl1 : Compl s1 [x]).
+      { intros o Ho. rewrite W2. destruct (HCompl o Ho) as [H|(w & [[]|Hw] & Hb & Hu)]; [left; exact H|].
+        right. exists w. split; [|auto]. eapply Permutation_in in Hw; [|exact Hperm].
+        destruct Hw as [Hw|Hw]; [left; left; exact Hw|right; rewrite W1; exact Hw]. }
+      destruct (process_spec s1 x s2 err HC1 HCompl1 Hgx Hdx Ep) as (-> & HC2 & HCompl2 & HPhi).
+      apply IH; [split; assumption|].
+      rewrite (Phi_perm _ _ Hperm) in Hfuel. unfold Phi in Hfuel, HPhi |- *. cbn [sumf] in Hfuel. rewrite W1 in HPhi. lia.
+  Qed.
+
+  (* partial correctness of the loop: whatever the fuel, if the loop finished it finished well *)
+  Lemma main_loop_partial : forall fuel s s', Inv s ->
+    main_loop st_eqb cfg fuel s = (s', Finished) -> Final s'.
+  Proof.
+    induction fuel as [|fuel IH]; intros s s' [HCore HCompl]; [cbn [main_loop]; discriminate|].
+    cbn [main_loop]. assert (Hcr : s_crash s = false) by apply HCore. rewrite Hcr.
+    destruct (get_workload_spec s HCore) as [(Hemp & s1 & Hgw & W1 & W2 & W3 & W4 & W5 & W6)
+                                            |(x & rest & s1 & Hgw & Hperm & W1 & HC1 & W2)]; rewrite Hgw.
+    - intros H; inversion H; subst s'. unfold Final. rewrite W6, W5, W4. split; [exact W2|]. split; [exact W3|].
+      split; [reflexivity|]. split; [apply HCore|]. intros o Ho.
+      destruct (HCompl o Ho) as [H'|(w & [[]|Hw] & _)]; [exact H'|]. rewrite Hemp in Hw. destruct Hw.
+    - destruct (process_one_node st_eqb cfg s1 x) as [s2 err] eqn:Ep.
+      assert (Hx : In x (s_simple s)).
+      { eapply Permutation_in; [apply Permutation_sym; exact Hperm|]. left; reflexivity. }
+      destruct HCore as (_ & _ & _ & Hfr & _). destruct (Hfr x Hx) as [Hgx Hdx].
+      assert (HCompl1 : Compl s1 [x]).
+      { intros o Ho. rewrite W2. destruct (HCompl o Ho) as [H|(w & [[]|Hw] & Hb & Hu)]; [left; exact H|].
+        right. exists w. split; [|auto]. eapply Permutation_in in Hw; [|exact Hperm].
+        destruct Hw as [Hw|Hw]; [left; left; exact Hw|right; rewrite W1; exact Hw]. }
+      destruct (process_spec s1 x s2 err HC1 HCompl1 Hgx Hdx Ep) as (-> & HC2 & HCompl2 & HPhi).
+      apply IH. split; assumption.
+  Qed.
+
+  (* ------------------------------------------------------------------ initialisation *)
+  Lemma initialize_inv s0 :
+    s_simple s0 = [] -> s_open s0 = repeat O (S N) -> s_crash s0 = false -> s_abort s0 = false ->
+    Incumbent (s_lb s0) (s_sol s0) ->
+    Inv (initialize_solver st_eqb cfg s0) /\ s_simple (initialize_solver st_eqb cfg s0) = [root_node cfg].
+  Proof.
+    intros H1 H2 H3 H4 H5. unfold initialize_solver. rewrite fr_push_simple.
+    cbn [s_simple s_open s_lb s_sol s_abort s_crash upd_s]. rewrite H1. split; [|reflexivity].
+    split.
+    - unfold Core. cbn [s_simple s_open s_lb s_sol s_abort s_crash upd_s].
+      split; [exact H3|]. split; [exact H4|]. split; [exact H5|]. split.
+      + intros n [<-|[]]. split; [exact good_root|]. cbn [root_node sp_depth]. lia.
+      + intros d Hd. rewrite H2. destruct d as [|d].
+        * reflexivity.
+        * cbn [repeat upd_nth nth_error]. rewrite nth_error_repeat by lia.
+          rewrite cnt_cons_other by (cbn [root_node sp_depth]; lia). reflexivity.
+    - intros o Ho. right. exists (root_node cfg). cbn [s_simple upd_s]. split; [right; left; reflexivity|].
+      split; [exact Ho|]. cbn [root_node sp_ub]. apply opt_in_isize. exact Ho.
+  Qed.
+
+  Definition primal_ok (primal : option (Z * list decision)) : Prop :=
+    forall pv psol, primal = Some (pv, psol) -> feasible psol pv.
+
+  Definition start_state (primal : option (Z * list decision)) : @sstate St :=
+    match primal with Some (v, sol) => set_primal (init_sstate cfg) v sol | None => init_sstate cfg end.
+
+  Lemma start_state_ok primal : primal_ok primal ->
+    s_simple (start_state primal) = [] /\ s_open (start_state primal) = repeat O (S N) /\
+    s_crash (start_state primal) = false /\ s_abort (start_state primal) = false /\
+    Incumbent (s_lb (start_state primal)) (s_sol (start_state primal)).
+  Proof.
+    intros Hp. assert (Hinit : Incumbent (s_lb (init_sstate cfg)) (s_sol (init_sstate cfg))).
+    { cbn [init_sstate s_lb s_sol]. split; [lia|]. left. auto. }
+    destruct primal as [[pv psol]|]; cbn [start_state].
+    - unfold set_primal. destruct (pv >? s_lb (init_sstate cfg)) eqn:E.
+      + cbn [s_simple s_open s_lb s_sol s_abort s_crash upd_s]. do 4 (split; [reflexivity|]).
+        rewrite Z.gtb_ltb in E. apply Z.ltb_lt in E. cbn [init_sstate s_lb] in E.
+        split; [lia|]. right. exists psol. split; [reflexivity|]. apply Hp. reflexivity.
+      + do 4 (split; [reflexivity|]). exact Hinit.
+    - do 4 (split; [reflexivity|]). exact Hinit.
+  Qed.
+
+  (* ------------------------------------------------------------------ main theorems *)
+  Definition fuel0 : nat := S ((S M) ^ N).
+
+  Definition result_ok (r : sresult) : Prop :=
+    r_crash r = false /\ r_outoffuel r = false /\ r_exact r = true /\ r_value r = OPT /\
+    (forall v, OPT = Some v ->
+       r_lb r = v /\ r_ub r = v /\ exists sol, r_sol r = Some (sort_by dec_var_cmp sol) /\ feasible sol v) /\
+    (OPT = None -> r_sol r = None /\ r_lb r = IMIN).
+
+  Lemma final_result s :
+    Final s ->
+    (forall v, OPT = Some v -> s_lb s = v /\ exists sol, s_sol s = Some sol /\ feasible sol v) /\
+    (OPT = None -> s_sol s = None /\ s_lb s = IMIN).
+  Proof.
+    intros (_ & _ & _ & [Hmin Hinc] & Hopt). split.
+    - intros v Hv. pose proof (Hopt v Hv) as Hle. pose proof (opt_in_isize v Hv) as Hr.
+      destruct Hinc as [[_ Hlb]|(sol & Hsol & Hfeas)]; [lia|].
+      destruct (feasible_le_opt _ _ Hfeas) as (o & Ho & Hlo). rewrite Hv in Ho. inversion Ho; subst o.
+      assert (Heq : s_lb s = v) by lia. split; [exact Heq|]. exists sol. rewrite <- Heq. auto.
+    - intros Hnone. destruct Hinc as [[Hs Hlb]|(sol & Hsol & Hfeas)]; [auto|].
+      destruct (feasible_le_opt _ _ Hfeas) as (o & Ho & _). rewrite Hnone in Ho. discriminate.
+  Qed.
+
+  Lemma maximize_of_final primal fuel s' :
+    main_loop st_eqb cfg fuel (initialize_solver st_eqb cfg (start_state primal)) = (s', Finished) ->
+    Final s' -> result_ok (maximize st_eqb cfg fuel primal).
+  Proof.
+    intros Hml HF. unfold maximize. fold (start_state primal).
+    rewrite Hml. destruct (final_result s' HF) as [Hsome Hnone].
+    destruct HF as (F1 & F2 & F3 & F4 & F5).
+    unfold result_ok. cbn [r_crash r_outoffuel r_exact r_value r_lb r_ub r_sol].
+    split; [exact F1|]. split; [reflexivity|]. split; [rewrite F2; reflexivity|].
+    assert (Hcase : forall x : option Z, (exists v, x = Some v) \/ x = None) by (intros [v|]; eauto).
+    destruct (Hcase OPT) as [[v EO]|EO]; rewrite EO.
+    - destruct (Hsome v EO) as (Hlb & sol & Hsol & Hfeas). rewrite Hsol, Hlb. cbn [option_map].
+      split; [reflexivity|]. split; [|discriminate].
+      intros v' Hv'. inversion Hv'; subst v'. split; [reflexivity|]. split; [rewrite F3; exact Hlb|].
+      exists sol. auto.
+    - destruct (Hnone EO) as [Hsol Hlb]. rewrite Hsol, Hlb. cbn [option_map].
+      split; [reflexivity|]. split; [discriminate|]. auto.
+  Qed.
+
+  (* total correctness with an explicit fuel bound, any (feasible or absent) warm start *)
+  Theorem maximize_correct primal : primal_ok primal ->
+    forall fuel, (fuel0 <= fuel)%nat -> result_ok (maximize st_eqb cfg fuel primal).
+  Proof.
+    intros Hp fuel Hfuel.
+    destruct (start_state_ok primal Hp) as (S1 & S2 & S3 & S4 & S5).
+    destruct (initialize_inv _ S1 S2 S3 S4 S5) as [HInv Hsimple].
+    destruct (main_loop_spec fuel _ HInv) as (s' & Hml & HF).
+    { rewrite Hsimple. unfold Phi, wt. cbn [sumf root_node sp_depth]. rewrite Nat.sub_0_r. unfold fuel0 in Hfuel. lia. }
+    eapply maximize_of_final; eassumption.
+  Qed.
+
+  (* partial correctness: for ANY fuel, a run that was not cut short by the fuel is correct *)
+  Theorem seq_solver_partial_correct primal : primal_ok primal ->
+    forall fuel, r_outoffuel (maximize st_eqb cfg fuel primal) = false ->
+    result_ok (maximize st_eqb cfg fuel primal).
+  Proof.
+    intros Hp fuel Hnf.
+    destruct (start_state_ok primal Hp) as (S1 & S2 & S3 & S4 & S5).
+    destruct (initialize_inv _ S1 S2 S3 S4 S5) as [HInv _].
+    destruct (main_loop st_eqb cfg fuel (initialize_solver st_eqb cfg (start_state primal))) as [s' e] eqn:Hml.
+    assert (He : e = Finished).
+    { unfold maximize in Hnf. fold (start_state primal) in Hnf. rewrite Hml in Hnf.
+      cbn [r_outoffuel] in Hnf. destruct e; [reflexivity|discriminate]. }
+    subst e. eapply maximize_of_final; [exact Hml|]. eapply main_loop_partial; eassumption.
+  Qed.
+
+  (* C01 *)
+  Theorem seq_solver_correct :
+    exists f0, forall fuel, (f0 <= fuel)%nat ->
+      let r := maximize st_eqb cfg fuel None in
+      r_crash r = false /\ r_outoffuel r = false /\ r_exact r = true /\ r_value r = OPT /\
+      (forall v, OPT = Some v ->
+         r_lb r = v /\ r_ub r = v /\ exists sol, r_sol r = Some (sort_by dec_var_cmp sol) /\ feasible sol v) /\
+      (OPT = None -> r_sol r = None /\ r_lb r = IMIN).
+  Proof.
+    exists fuel0. intros fuel Hfuel. apply (maximize_correct None); [|exact Hfuel].
+    intros pv psol H; discriminate.
+  Qed.
+
+  (* C14 *)
+  Theorem seq_solver_correct_primal pv psol : feasible psol pv ->
+    exists f0, forall fuel, (f0 <= fuel)%nat ->
+      let r := maximize st_eqb cfg fuel (Some (pv, psol)) in
+      r_crash r = false /\ r_outoffuel r = false /\ r_exact r = true /\ r_value r = OPT /\
+      (forall v, OPT = Some v ->
+         r_lb r = v /\ r_ub r = v /\ exists sol, r_sol r = Some (sort_by dec_var_cmp sol) /\ feasible sol v) /\
+      (OPT = None -> r_sol r = None /\ r_lb r = IMIN).
+  Proof.
+    intros Hf. exists fuel0. intros fuel Hfuel. apply (maximize_correct (Some (pv, psol))); [|exact Hfuel].
+    intros pv' psol' H; inversion H; subst. exact Hf.
+  Qed.
+
 End SolverProofs.
+
+Print Assumptions seq_solver_correct.
+Print Assumptions seq_solver_correct_primal.
+Print Assumptions maximize_correct.
+Print Assumptions seq_solver_partial_correct.
+Print Assumptions set_primal_strict.
